@@ -40,7 +40,7 @@ REACH = {
     "quick": {"date_values": 30000, "time_millis_values": 50000, "time_micros_values": 20000,
               "timestamp_values": 40000, "local_timestamp_values": 10000, "uuid_values": 2000,
               "decimal_cases": 20000, "decimal_must_raise": 2000, "decimal_must_succeed": 8000,
-              "decimal_neg_zero": 50, "decimal_fixed_boundary": 200, "decimal_by_reference": 500, "subsecond_offsets": 500},
+              "decimal_neg_zero": 50, "decimal_fixed_boundary": 200, "decimal_by_reference": 500, "decimal_piecewise_files": 500, "subsecond_offsets": 500},
     "thorough": {"date_values": 3652059, "time_millis_values": 86400000},
 }
 EPOCH_ORD = dt.date(1970, 1, 1).toordinal()
@@ -464,6 +464,22 @@ def decimals(sh, fa, rng, spec):
                     sh.violation("decimal-roundtrip-differs", "through by-name references: %s" % (exc_name(got) if st == "exc" else repr(got)), dict(info, schema=wrap, value=rec))
                     return
                 sh.count("decimal_by_reference")
+                # the type parsed on its own first (shared named_schemas) and used by name only: a container
+                # file written from that schema carries the full annotation in its header
+                def piecewise_file():
+                    named = {}
+                    fa.parse_schema(copy.deepcopy(js), named)
+                    pw = fa.parse_schema({"type": "record", "name": "Holder2", "fields": [
+                        {"name": "a", "type": "Dec"}, {"name": "c", "type": {"type": "array", "items": "Dec"}}, {"name": "u", "type": ["null", "Dec"]}]}, named)
+                    fo = io.BytesIO()
+                    fa.writer(fo, pw, [{"a": d, "c": [d, d], "u": d}], codec=rng.choice(["null", "deflate"]))
+                    return list(fa.reader(io.BytesIO(fo.getvalue())))
+                st, got = guard(piecewise_file)
+                if st == "exc" or got != [{"a": d, "c": [d, d], "u": d}]:
+                    sh.violation("decimal-roundtrip-differs", "container file written from a schema that only refers to the separately parsed decimal type: %s"
+                                 % (exc_name(got) if st == "exc" else repr(got)), dict(info, value=d))
+                    return
+                sh.count("decimal_piecewise_files")
 
 
 def run_shard(spec):
